@@ -208,4 +208,19 @@ def view_queries(tier):
     return qs
 
 def queries(tier):
-    return mem_queries(tier) + arr_queries(tier) + str_queries(tier) + stream_queries(tier) + view_queries(tier)
+    qs = mem_queries(tier) + arr_queries(tier) + str_queries(tier) + stream_queries(tier) + view_queries(tier)
+    if tier != 'quick':
+        return qs
+    # quick tier: the per-change check.  One representative per (container, element/char type, operation) group
+    # (the variant with the largest size parameters) plus every 12th of the remaining variants; deterministic.
+    import zlib
+    groups = {}
+    for q in qs:
+        groups.setdefault(q.name.rsplit('/', 1)[0] if not q.name.endswith('/kf') else q.name, []).append(q)
+    keep = []
+    for g, members in groups.items():
+        members.sort(key=lambda q: q.name)
+        keep.append(members[-1])
+        for q in members[:-1]:
+            if zlib.crc32(q.name.encode()) % 12 == 0: keep.append(q)
+    return keep
